@@ -123,6 +123,9 @@ def run_acq(case):
     except ValueError as e:
         if rmv and n > avail:
             return CaseResult(['randmaxvar-refuses-n-beyond-chain'], None)
+        if rmv and ('Cannot find acceptable stepsize' in str(e) or 'Bad initialization' in str(e)):
+            # NUTS' documented refusal of a starting point (very peaked acquisition density): counted, not judged
+            return CaseResult(['nuts-refused-start'], None)
         with must_not_raise(P, 'acquire(%d, t=%d); %s' % (n, t, ctx)):
             raise
         raise
